@@ -33,6 +33,8 @@ def cases(tier, seed):
     out = []
     for r in ratios:
         out.append({"cls": "ideal", "table": None, "p_f": r * 8000.0, "p_i": 8000.0, "ref": "fourier"})
+    for r in ratios:  # ideal reservoir with a (real-gas) fluid attached: same closed form
+        out.append({"cls": "ideal", "table": "T_ship_gas", "p_f": r * 8000.0, "p_i": 8000.0, "ref": "fourier"})
     for r in ratios:
         out.append({"cls": "single", "table": "A_const", "p_f": r * 8000.0, "p_i": 8000.0, "ref": "fourier"})
     tabs = ["T_ship_gas", "S_zdip", "A_rise", "A_fall", "A_kink"]
